@@ -143,7 +143,7 @@ def main(argv):
     v.coverage.update({
         'evaluations': len(cases),
         'distinct_nontrivial': distinct_count([c for c in cases if 'IOk' in c]),
-        'rule': 'raw: for each of the ten instruction formats (several games, script last / followed by another script) RawInstr lists with one field at a boundary (time +-2^15.., opcode 2^7/2^8/2^15/2^16-1, masks, argument blobs of 252/256/32756/65520..65540 bytes, difficulty, pop, arg count, extra arg, end-marker lookalikes, all-zero instructions) and random lists are put into a compiled template file, written with write_to_stream and re-read with read_from_stream; src: generated sources with the same boundary values through time labels, ins_N, @mask/@pop/@arg0/@nargs/@blob and ANM entry metadata -> truth-cli compile -> re-read in-process, compared with the in-process compile and with the values in the source. distinct = distinct case terms; non-trivial = the implementation wrote a file',
+        'rule': 'raw: for each of the ten instruction formats (several games, script last / followed by another script) RawInstr lists with one field at a boundary (time +-2^15.., opcode 2^7/2^8/2^15/2^16-1, masks, argument blobs of 252/256/32756/65520..65540 bytes, difficulty, pop, arg count, extra arg, end-marker lookalikes, all-zero instructions) and random lists are put into a compiled template file, written with write_to_stream and re-read with read_from_stream; src: generated sources with the same boundary values through time labels, ins_N, @mask/@pop/@arg0/@nargs/@blob ANM entry metadata, header strings (ANM entry path, STD stage/bgm/anm names, stack-ECL ANIM/ECLI include lists) built from ASCII, 2-byte-UTF-8 and 3-byte-UTF-8 characters whose Shift-JIS encodings are 1 or 2 bytes, and (old ECL subs, stack ECL) signature instructions that carry @mask/@pop/@nargs together with a difficulty switch a:b:c:d and/or a difficulty label, every per-difficulty copy being compared with the source values -> truth-cli compile -> re-read in-process, compared with the in-process compile and with the values in the source. distinct = distinct case terms; non-trivial = the implementation wrote a file',
         'traces_validated_against_impl': len(cases),
         'case_kinds': hist,
         'generator_stats': stats,
